@@ -33,6 +33,7 @@ type waitScn struct {
 	stop    bool          // batch: stop-on-error mode
 	stagger bool          // batch: item i's attempts take i*w/2 of virtual time (items are not in lock-step)
 	inFlow  bool          // single node: run as the only node of a flow
+	fb      bool          // a fallback that always recovers is configured (function-style node / batch)
 }
 
 func (s waitScn) name() string {
@@ -44,7 +45,11 @@ func (s waitScn) name() string {
 	if s.cancelJ >= 0 {
 		c = fmt.Sprintf("after-attempt-%d+%v", s.cancelJ, s.d)
 	}
-	return fmt.Sprintf("wait kind=%s w=%v N=%d items=%d c=%d cancel=%s execDur=%v stop=%v stagger=%v inFlow=%v", k, s.w, s.n, s.items, s.c, c, s.execDur, s.stop, s.stagger, s.inFlow)
+	fbs := ""
+	if s.fb {
+		fbs = " recovering-fallback"
+	}
+	return fmt.Sprintf("wait kind=%s w=%v N=%d items=%d c=%d cancel=%s execDur=%v stop=%v stagger=%v inFlow=%v%s", k, s.w, s.n, s.items, s.c, c, s.execDur, s.stop, s.stagger, s.inFlow, fbs)
 }
 
 type attemptRec struct {
@@ -116,7 +121,12 @@ func (s waitScn) scenario() Scenario {
 			if s.kind == kBase {
 				node = &waitNode{BaseNode: flyt.NewBaseNode(flyt.WithMaxRetries(s.n), flyt.WithWait(s.w)), exec: func() (any, error) { return exec(0) }, post: func() { lastCb = core.VNow() }}
 			} else {
-				node = flyt.NewNode().WithMaxRetries(s.n).WithWait(s.w).
+				nb := flyt.NewNode()
+				if s.fb {
+					// recovers from anything it is given: a cancelled wait must not reach it
+					nb = nb.WithExecFallbackFunc(func(any, error) (any, error) { return "recovered", nil })
+				}
+				node = nb.WithMaxRetries(s.n).WithWait(s.w).
 					WithExecFunc(func(context.Context, flyt.Result) (flyt.Result, error) {
 						v, e := exec(0)
 						if e != nil {
@@ -135,7 +145,11 @@ func (s waitScn) scenario() Scenario {
 				_, err = flyt.Run(ctx, node, flyt.NewSharedStore())
 			}
 		default:
-			b := flyt.NewBatchNode().WithMaxRetries(s.n).WithWait(s.w).WithBatchConcurrency(s.c).WithBatchErrorHandling(!s.stop).
+			var bopts []any
+			if s.fb {
+				bopts = append(bopts, flyt.WithExecFallbackFunc(func(any, error) (any, error) { return "recovered", nil }))
+			}
+			b := flyt.NewBatchNode(bopts...).WithMaxRetries(s.n).WithWait(s.w).WithBatchConcurrency(s.c).WithBatchErrorHandling(!s.stop).
 				WithPrepFunc(func(context.Context, *flyt.SharedStore) ([]flyt.Result, error) {
 					var it []flyt.Result
 					for i := 0; i < s.items; i++ {
@@ -360,6 +374,18 @@ func genC20(tier string) []Scenario {
 	}
 	out = append(out, waitScn{kind: -1, w: time.Millisecond, n: 2, items: 2, c: 0, cancelJ: -1, bound: 0, execDur: 2 * time.Millisecond}.scenario())
 	out = append(out, waitScn{kind: -1, w: time.Millisecond, n: 2, items: 2, c: 2, cancelJ: -1, bound: 0, execDur: 2 * time.Millisecond}.scenario())
+	// a fallback that would recover from anything: a wait cut short by the cancellation still ends
+	// the run (the item) with the context's error
+	for _, w := range []time.Duration{time.Millisecond, time.Hour} {
+		for j := 0; j < 2; j++ {
+			out = append(out, waitScn{kind: kFuncR, w: w, n: 3, cancelJ: j, d: w / 2, bound: 1, fb: true}.scenario())
+			out = append(out, waitScn{kind: kFuncR, w: w, n: 3, cancelJ: j, d: w / 2, bound: 1, fb: true, inFlow: true}.scenario())
+			for _, c := range []int{0, 2} {
+				out = append(out, waitScn{kind: -1, w: w, n: 3, items: 2, c: c, cancelJ: j, d: w / 2, bound: 1, fb: true}.scenario())
+			}
+		}
+		out = append(out, waitScn{kind: kFuncR, w: w, n: 3, cancelJ: -1, bound: 0, fb: true}.scenario())
+	}
 	// the retrying node inside (nested) flows: the context error must survive the flow boundaries
 	for _, kind := range []int{kBase, kFuncR} {
 		for _, w := range []time.Duration{time.Millisecond, time.Hour} {
